@@ -663,6 +663,45 @@ theorem coord_attribute_keeps_person_dep_holds : coord_attribute_keeps_person_de
     · simp only [hk, if_false, Except.ok.injEq] at h
       rw [← h]; exact afterCoord_pe _ p hpn
 
+
+/-! ## bare pronouns as members: lexicon features against the declension tables (generated data) -/
+
+/-- **C09.pronoun-data** for every `Pro` entry of both lexicons: the person / number / gender a bare pronoun starts
+    with agree with its declension table whenever the whole table has one person / number / gender -/
+def pronoun_entry_features_consistent_tbl : Prop :=
+  ∀ e ∈ proEntries, consistentPe e = true ∧ consistentN e = true ∧ consistentG e = true
+
+/-- witness: English `them` (table pn2-3p, all rows plural) carries no `n`: a bare `Pro("them")` is singular,
+    “The girl or them comes” -/
+theorem pronoun_entry_features_consistent_tbl_refuted : ¬ pronoun_entry_features_consistent_tbl := by
+  intro h
+  have hm : (⟨s "en", s "them", s "pn2-3p", none, none, none,
+      [(some 3, some (s "p"), some (s "x")), (some 3, some (s "p"), some (s "x")), (some 3, some (s "p"), some (s "x")),
+       (some 3, some (s "p"), some (s "x")), (some 3, some (s "p"), some (s "x")), (some 3, some (s "p"), some (s "x"))]⟩ : ProEntry)
+      ∈ proEntries := by decide +kernel
+  have := (h _ hm).2.1
+  revert this
+  decide
+
+/-- the inconsistencies of the shipped data (language, lemma, feature) -/
+def knownProInconsistencies : List (Str × Str × Str) :=
+  [(s "en", s "them", s "n"), (s "en", s "us", s "n"), (s "en", s "him", s "g"), (s "en", s "her", s "g"),
+   (s "fr", s "ça", s "g"), (s "fr", s "ce", s "g"), (s "fr", s "ceci", s "g"), (s "fr", s "cela", s "g")]
+
+set_option maxRecDepth 20000 in
+theorem pronoun_entry_features_consistent_tbl_partial :
+    ∀ e ∈ proEntries,
+      ((e.lang, e.lemma, s "pe") ∉ knownProInconsistencies → consistentPe e = true) ∧
+      ((e.lang, e.lemma, s "n") ∉ knownProInconsistencies → consistentN e = true) ∧
+      ((e.lang, e.lemma, s "g") ∉ knownProInconsistencies → consistentG e = true) := by
+  decide +kernel
+
+/-- the exception list is tight: each listed triple IS inconsistent in the shipped data -/
+theorem pronoun_known_inconsistencies_tbl :
+    ∀ t ∈ knownProInconsistencies, ∃ e ∈ proEntries, e.lang = t.1 ∧ e.lemma = t.2.1 ∧
+      ((t.2.2 = s "n" ∧ consistentN e = false) ∨ (t.2.2 = s "g" ∧ consistentG e = false)) := by
+  decide +kernel
+
 /-! ## non-vacuity: concrete instances of the hypotheses, and the model run on them (tests, not theorems) -/
 
 def theCat : Member := mkNP [s "the", s "cat"] none
